@@ -13,3 +13,26 @@ partial def forLines {σ : Type} (h : IO.FS.Stream) (s : σ) (f : σ → String 
 def joinSp (l : List String) : String := " ".intercalate l
 
 end Driver
+
+namespace Driver
+/-- one line of a controller trace: `ev <participant> <cur> <POINT> <a> <b> <v>` -/
+structure Ev where
+  part : Nat
+  cur : Option Nat
+  pt : String
+  a : String
+  b : String
+  v : Int
+  deriving Repr
+
+def parseTag (s : String) : Option Nat :=
+  if s.startsWith "t" then (s.drop 1).toString.toNat? else none
+
+def parseEv (line : String) : Option Ev :=
+  match words line with
+  | ["ev", p, cur, pt, a, b, v] =>
+    match p.toNat?, v.toInt? with
+    | some p, some v => some { part := p, cur := cur.toNat?, pt := pt, a := a, b := b, v := v }
+    | _, _ => none
+  | _ => none
+end Driver
